@@ -68,7 +68,7 @@ pub fn rule(signo: i32, code: i32) -> (i64, bool) {
     }
 }
 
-const MECH: [&str; 11] = ["kill(self)", "raise", "sigqueue(self)", "kill from a grandchild", "child exits", "child killed", "child stopped", "child continued", "setitimer", "timer_create", "write to a closed pipe"];
+const MECH: [&str; 12] = ["kill(self)", "raise", "sigqueue(self)", "kill from a grandchild", "child exits", "child killed", "child stopped", "child continued", "setitimer", "timer_create", "write to a closed pipe", "burst of 7 x raise before anything is read (the per-signal buffer holds 5)"];
 
 extern "C" {
     fn sigqueue(pid: libc::pid_t, sig: libc::c_int, value: libc::sigval) -> libc::c_int;
@@ -86,6 +86,12 @@ fn send(mech: usize, sig: i32) -> Option<i32> {
             }
             1 => {
                 libc::raise(sig);
+                Some(me)
+            }
+            11 => {
+                for _ in 0..7 {
+                    libc::raise(sig);
+                }
                 Some(me)
             }
             2 => {
@@ -433,7 +439,7 @@ pub fn run(tier: Tier) -> BResult {
         violations,
         exhaustive: true,
         caps: vec![],
-        rule: "complete grid sending mechanism (11) x catchable non-forbidden signal (quick: 6 representative numbers; thorough: all) with the delivery observed by the library twice and by an independent chained SA_SIGINFO reader; plus the complete synthetic grid si_signo 1..64 x si_code in [-10,10]+{0x80,MIN,MAX} with a poisoned union, and again with si_pid / si_uid in {(0,4242), (0,0), (4242,0), (1,1)} (pid 0 = sender outside the receiver's pid namespace); distinct = distinct (mechanism, raw si_code) and (cause class, process?) pairs".into(),
+        rule: "complete grid sending mechanism (12, incl. a burst longer than the per-signal buffer: every record that comes out must be one of the deliveries) x catchable non-forbidden signal (quick: 6 representative numbers; thorough: all) with the delivery observed by the library twice and by an independent chained SA_SIGINFO reader; plus the complete synthetic grid si_signo 1..64 x si_code in [-10,10]+{0x80,MIN,MAX} with a poisoned union, and again with si_pid / si_uid in {(0,4242), (0,0), (4242,0), (1,1)} (pid 0 = sender outside the receiver's pid namespace); distinct = distinct (mechanism, raw si_code) and (cause class, process?) pairs".into(),
         assumptions: vec!["the independent reader uses libc's own siginfo accessors".into(), "feature extended-siginfo (extract.c compiled with the system C compiler)".into()],
     }
 }
